@@ -78,6 +78,7 @@ def gen_poolmix(seed, tier, o):
       ("h1"|"h2"|"mix"); proxies: list ; max_callers ; single_origin ; h2_events: bool
     """
     r = gen.mk_rng(seed, "poolmix")
+    rsel = gen.mk_rng(seed, "poolmix-sel")
     ex = o.get("exec", "asyncio")
     proto = r.choice(o.get("protos", ["h1", "h1", "h2", "mix"]))
     proxy_kind = r.choice(o.get("proxies", ["none"] * 6 + ["http", "https", "socks", "http"]))
@@ -183,7 +184,11 @@ def gen_poolmix(seed, tier, o):
                   "url": f"{scheme}://{host}/t/{tok}",
                   "resp": gen.gen_resp_plan(r, tok.encode(), method,
                                             {"big": big, **o.get("resp_opts", {})}),
-                  "consume": gen.gen_consume(r, o.get("consume_opts"))}
+                  "consume": gen.gen_consume(r, o.get("consume_opts")),
+                  # a low-cardinality header: HPACK indexes it, so a client whose dynamic
+                  # table has drifted from the server's makes the server decode another value
+                  "headers": [["x-sel", rsel.choice(["s0", "s1", "s2"])],
+                              ["X-Grp", rsel.choice(["g0", "g1"])]]}
             if method in ("POST", "PUT"):
                 b = gen.gen_req_body(r, big=big)
                 if b is None:
